@@ -34,7 +34,7 @@ PROPS = {
             'expect': ['gen_hasref:trait HasRefUnit::_fit', 'lemmas_m1_f64:lemma_C04_f64_product_magnitude_fitted', 'lemmas_m1_f64:lemma_C04_f64_quotient_magnitude_natural',
                        'lemmas_m1_f64:lemma_C04_roundtrip_magnitude']},
     'C05': {'level': 'proof', 'quick': ['gen_hasref'] + TYPES_REF + ['kani_q_f64:ufs', 'kani_q_f64:fit', 'kani_astro_f64:ufs', 'kani_astro_f64:fit'],
-            'thorough': TYPES_FIX + ['kani_q_dec:ufs', 'kani_q_dec:fit'],
+            'thorough': TYPES_FIX + ['kani_q_dec:ufs', 'kani_fix_f64:ufs', 'kani_fix_f64:fit'],
             'expect': ['gen_hasref:trait HasRefUnit::_fit', 'gen_hasref:lemma_C05_natural_unit_product', 'gen_hasref:lemma_C05_natural_unit_quotient',
                        'gen_hasref:lemma_C05_fitted_unit_product', 'gen_hasref:lemma_C05_fitted_unit_quotient',
                        'gen_hasref:lemma_C05_reference_units_product', 'gen_hasref:lemma_C05_reference_units_quotient']},
@@ -53,11 +53,11 @@ PROPS = {
             'expect': ['kani_q_f64:reg::k_reg_Length', 'kani_q_f64:reg::k_asqty_Length', 'kani_q_f64:ufs::k_ufs_Length',
                        'kani_q_f64:sym::k_sym_declared_Length', 'kani_q_f64:reg::k_reg_Temperature']},
     'C10': {'level': 'proof', 'quick': ['gen_quantity'] + TYPES_NOREF + ['types_fix_f64_noref', 'kani_q_f64:noref'],
-            'thorough': ['types_fix_dec_noref', 'kani_q_dec:noref', 'kani_fix_f64:noref', 'kani_fix_f64:reg'],
+            'thorough': ['types_fix_dec_noref', 'kani_fix_f64:noref', 'kani_fix_f64:reg'],
             'expect': ['gen_quantity:trait Quantity::eq', 'gen_quantity:trait Quantity::partial_cmp', 'gen_quantity:trait Quantity::add',
                        'gen_quantity:trait Quantity::sub', 'gen_quantity:trait Quantity::div',
                        'gen_quantity:lemma_C10_equal_only_if_same_unit_and_amount', 'gen_quantity:lemma_C10_different_units_unordered']},
-    'C14': {'level': 'proof', 'quick': ['kani_q_f64:conv', 'c14_q_f64', 'c14_q_dec'], 'thorough': ['kani_q_dec:conv'],
+    'C14': {'level': 'proof', 'quick': ['kani_q_f64:conv', 'c14_q_f64', 'c14_q_dec'], 'thorough': [],
             'expect': ['kani_q_f64:conv::k_conv_select_n3', 'kani_q_f64:conv::k_conv_temperature_total', 'kani_q_f64:conv::k_conv_dataflow', 'c14_q_f64:lemma_C14_row_Kelvin_to_Degree_Celsius', 'c14_q_dec:lemma_C14_inverse_Degree_Celsius_Kelvin',
                        'c14_q_f64:lemma_C14_compose_Kelvin_Degree_Celsius_Degree_Fahrenheit']},
     'C16': {'level': 'proof', 'quick': ['kani_q_f64:si', 'kani_q_f64:si2'],
@@ -65,7 +65,7 @@ PROPS = {
     'C18': {'level': 'proof', 'quick': ['gen_hasref', 'gen_quantity', 'types_q_f64_ref', 'types_q_f64_noref', 'kani_q_f64:total', 'kani_q_f64:totald',
                                           'kani_q_f64:ufs', 'kani_q_f64:fit', 'kani_q_f64:sym', 'kani_q_f64:conv', 'kani_q_f64:noref',
                                           'types_astro_f64_ref', 'kani_astro_f64:total', 'kani_astro_f64:totald', 'kani_astro_f64:ufs', 'kani_astro_f64:fit'],
-            'thorough': TYPES_FIX,
+            'thorough': TYPES_FIX + ['kani_fix_f64:total', 'kani_fix_f64:totald', 'kani_fix_f64:ufs', 'kani_fix_f64:fit', 'kani_fix_f64:sym', 'kani_fix_f64:noref'],
             'expect': ['gen_hasref:trait HasRefUnit::_fit', 'kani_q_f64:fit::k_fit_Length', 'kani_q_f64:total::k_total_like_Length']},
     'C13': {'level': 'proof', 'quick': ['gen_quantity', 'lemmas_m1_f64'] + TYPES_Q, 'thorough': TYPES_FIX,
             'expect': ['gen_quantity:impl Rate::new', 'gen_quantity:impl Rate::from_qty_vals', 'gen_quantity:impl Rate::term_amount',
